@@ -75,8 +75,8 @@ CLAIMS['C01'] = {
              "offsets are pyxis's running sums (packed: unconditionally); emitted_fields / nameRegions_types / buildType_layout – the "
              "emitted struct lists exactly the placed regions in order under repr(C, align(a)) or repr(C, packed); composed in "
              "field_offsets_exact. Correspondence with pyxis on layout-first generated worlds and an oracle that lays out the "
-             "implementation's emitted structs with the compiler's rules and compares every named field's offset with the description."),
-    'note': COMMON_NOTE + "rustc's repr(C) layout is modelled (Lean RustSem and Python rustlay), validated against the real compiler only in the thorough tier; zero-length array fields are not emitted and are exempt.",
+             "implementation's emitted structs with the compiler's rules and compares every named field's offset with the description; on every run the REAL compiler (nightly rustc, no_core, targets i686- and x86_64-pc-windows-msvc) evaluates size_of / align_of / offset_of assertions for a sample of the accepted worlds (all of them in the thorough tier) against that layout model and against the sizes pyxis resolved."),
+    'note': COMMON_NOTE + "rustc's repr(C) layout is modelled (Lean RustSem and Python rustlay) and validated against the real compiler at both pointer widths on a sample per run; zero-length array fields are not emitted and are exempt.",
     'technique': 'Lean 4 proof (placement-loop invariant; no-padding lemma for repr(C)) + differential correspondence + layout oracle',
 }
 CLAIMS['C02'] = {
@@ -86,7 +86,7 @@ CLAIMS['C02'] = {
              "placed_layouts/embedding_uses_recorded – the layouts used when embedding a type are the ones recorded for it, which are "
              "what the compiler uses; enum_sound, vftable_sound, size_check_emitted. Correspondence plus an oracle comparing, for every "
              "emitted item, pyxis's resolved (size, align) with the compiler-rule layout of the emitted text, the size-check literal and the "
-             "declared attributes. Per-item theorems; the registry-wide induction over resolution rounds is not formalised."),
+             "declared attributes; the real nightly compiler confirms both the layout model and pyxis's resolved sizes at both pointer widths on a sample per run (all worlds in the thorough tier). Per-item theorems; the registry-wide induction over resolution rounds is not formalised."),
     'note': COMMON_NOTE + "rustc layout modelled; extern types assumed to have their declared layout; by-value void excluded (pyxis 0 vs c_void 1).",
     'technique': 'Lean 4 proof (repr(C) size/alignment lemma, lcm bound, table decide) + differential correspondence + layout oracle',
 }
